@@ -112,6 +112,13 @@ video_sink_start(struct video_sink_s* self)
            device_state_as_string(storage_get_state(self->storage)));
 
     channel_accept_writes(&self->in, 1);
+    // Register as a reader of the queue before anything can be written to it.
+    // While the queue has no reader the writer wraps freely, so frames written
+    // before the sink thread's first read could be overwritten.
+    if (!self->reader.id) {
+        channel_read_map(&self->in, &self->reader);
+        channel_read_unmap(&self->in, &self->reader, 0);
+    }
     self->is_stopping = 0;
     self->is_running = 1;
     CHECK(
